@@ -124,8 +124,23 @@ struct LinkOptions {
     output: PathBuf,
 }
 
+// The passes recurse over the syntax tree; a function with a few hundred statements
+// or an expression nested ~200 deep does not fit the default 8 MiB main-thread stack.
+const COMPILER_STACK_BYTES: usize = 1024 * 1024 * 1024;
+
 fn main() {
-    if let Err(err) = run_cli() {
+    let worker = std::thread::Builder::new()
+        .name("goml".to_string())
+        .stack_size(COMPILER_STACK_BYTES)
+        .spawn(run_cli);
+    let result = match worker {
+        Ok(handle) => match handle.join() {
+            Ok(result) => result,
+            Err(_) => std::process::exit(101),
+        },
+        Err(_) => run_cli(),
+    };
+    if let Err(err) = result {
         eprintln!("{err}");
         std::process::exit(1);
     }
